@@ -189,14 +189,22 @@ class PySort(Stream):
             'non-trivial = length >= 64 (merging happens)')
 
     def gen(self, rng, tier):
-        n_cases = 150 if tier == 'quick' else 1500
+        n_cases = 150 if tier == 'quick' else 3000
         big = 700 if tier == 'quick' else 2000
         out = []
         for _ in range(n_cases):
-            n = rng.randrange(rng.choice([3, 10, 40, 63, 64, 65, 66, 130, 300, big]) + 1)
+            u = rng.random()
+            if u < 0.25:
+                n = rng.randrange(0, 64)
+            elif u < 0.4:
+                n = rng.choice([63, 64, 65, 66, 127, 128, 129])
+            elif u < 0.8:
+                n = rng.randrange(64, 400)
+            else:
+                n = rng.randrange(400, big + 1)
             m = rng.choice([2, 3, 5, 10, 100])
             l = [[rng.randrange(m), rng.randrange(m), rng.randrange(m)] for _ in range(n)]
-            mode = rng.randrange(6)
+            mode = rng.randrange(8)
             if mode == 1:
                 l.sort()
             elif mode == 2:
@@ -217,12 +225,28 @@ class PySort(Stream):
                 g = sorted(set(tuple(x) for x in l))
                 cut = rng.randrange(len(g) + 1)
                 l = [list(x) for x in g[cut:] + g[:cut]]
+            elif mode == 5:      # two long runs with blocks that win consistently (galloping both ways)
+                a, b = sorted(l[:n // 2]), sorted(l[n // 2:])
+                blk = rng.choice([1, 8, 20])
+                a = [[x[0] + 2 * m * (i // blk), x[1], x[2]] for i, x in enumerate(sorted(a))]
+                b = [[x[0] + 2 * m * (i // blk) + m, x[1], x[2]] for i, x in enumerate(sorted(b))]
+                l = (a + b) if rng.random() < 0.5 else (b + a)
+            elif mode == 6:      # a real catalogue candidate list, perturbed
+                vals = self._catalogue_values()
+                r = [rng.choice([0, 1, 2, 8, 30, 64]), rng.choice([0, 4, 64, 256]), rng.choice([0, 100, 1000])]
+                l = [list(v) for v in vals if all(v[i] >= r[i] for i in range(3))]
+                if l and rng.random() < 0.5:
+                    cut = rng.randrange(len(l))
+                    l = l[cut:] + l[:cut]
             out.append([rng.randrange(len(LTS)), l])
         return out
 
-    def corpus(self):
+    def _catalogue_values(self):
         d = repo_json('fim/slivers/data/instance_sizes.json')
-        vals = [[v['core'], v['ram'], v['disk']] for v in d.values()]
+        return [[v['core'], v['ram'], v['disk']] for v in d.values()]
+
+    def corpus(self):
+        vals = self._catalogue_values()
         return [[0, vals], [0, [v for v in vals if v[1] >= 128 and v[2] >= 500]], [0, []], [0, [[1, 1, 1]]]]
 
     def observe(self, case):
@@ -565,7 +589,7 @@ class Enum(Stream):
 
 class C18(Check):
     pid = 'C18'
-    translators = ['gen_catalog']
+    translators = ['gen_catalog', 'gen_caps']
     model_targets = ['Model/Catalog18.vo']
     streams = [Sizing(), PySort(), Components(), Enum()]
     trusted_base = [
